@@ -102,7 +102,7 @@ def refresh_window(ctx, repo, T):
             interp.call_hook = hook
             counter = Native(lambda a, k: 1, "counter")
             logc = Obj(None, {"begin": b, "end": e})
-            me = Obj(m.cls, {"sendparms": ("1.1.1.1", 10022, b"IOS", b"SPA"), "get_and_increment_sequence_counter": counter,
+            me = Obj(repo.instance_cls(m.cls), {"sendparms": ("1.1.1.1", 10022, b"IOS", b"SPA"), "get_and_increment_sequence_counter": counter,
                              "_protocol": Obj(None, {"get_and_increment_sequence_counter": counter})})
             for nm in names:
                 parts = nm.split(".")
